@@ -74,7 +74,7 @@ func (a lin) String() string {
 }
 
 type prover struct {
-	ctx []Fact // facts at the obligation being proved (set by at)
+	ctx    []Fact          // facts at the obligation being proved (set by at)
 	nonneg map[string]bool // terms known ≥ 0 (lengths, unsigned values)
 	memo   map[ssa.Value]lin
 	extra  []lin // facts discovered while normalising (contracts)
@@ -253,7 +253,7 @@ func (p *prover) norm1(v ssa.Value) lin {
 			// -1 ≤ r ; r + 1 ≤ len(s)  (r < len(s))
 			t := describe(v)
 			r := linTerm(t)
-			p.extra = append(p.extra, r.add(linConst(1), 1))                                   // r + 1 ≥ 0
+			p.extra = append(p.extra, r.add(linConst(1), 1))                                 // r + 1 ≥ 0
 			p.extra = append(p.extra, p.lenOf(argsOf(x)[0]).add(r, -1).add(linConst(1), -1)) // len - r - 1 ≥ 0
 			p.notes["contract: "+n+" returns -1 ≤ r < len(s)"] = true
 			return r
